@@ -34,6 +34,9 @@ struct Case {
     mem: Vec<u8>,
     /// `stack` cases: (arch, callee sp, leaf allowed, pointer-auth mask)
     stack: Option<(String, u64, bool, Option<u64>)>,
+    /// `xwalk` cases (a `stack` payload answered by one of the two Lean models of the evaluator):
+    /// `c06` = `MdModel.Cfi` (`cfi stack` entry), `wlk` = `MdModel.Walk` (`walk` entry)
+    xwalk: Option<String>,
 }
 
 fn strip<'a>(s: &'a str, key: &str) -> Option<&'a str> {
@@ -61,6 +64,15 @@ fn parse_case(line: &str) -> Option<Case> {
         return None;
     }
     let mut stack = None;
+    let mut xwalk = None;
+    if f[1] == "xwalk" {
+        if f.len() != 17 || (f[2] != "c06" && f[2] != "wlk") {
+            return None;
+        }
+        xwalk = Some(f[2].to_string());
+        f.remove(2);
+        f[1] = "stack";
+    }
     if f[1] == "stack" {
         if f.len() != 16 {
             return None;
@@ -137,6 +149,7 @@ fn parse_case(line: &str) -> Option<Case> {
     c.mem_base = mem[0].parse().ok()?;
     c.mem = unhex(mem[1])?;
     c.stack = stack;
+    c.xwalk = xwalk;
     Some(c)
 }
 
@@ -149,9 +162,10 @@ fn render_pairs(v: &[(String, u64)]) -> String {
 }
 
 fn render(c: &Case) -> String {
-    let head = match &c.stack {
-        None => "cfi walk".to_string(),
-        Some((arch, ..)) => format!("cfi stack arch:{arch}"),
+    let head = match (&c.stack, &c.xwalk) {
+        (None, _) => "cfi walk".to_string(),
+        (Some((arch, ..)), None) => format!("cfi stack arch:{arch}"),
+        (Some((arch, ..)), Some(v)) => format!("cfi xwalk {v} arch:{arch}"),
     };
     let tail = match &c.stack {
         None => String::new(),
@@ -630,6 +644,8 @@ fn junk_pool(rng: &mut Rng) -> String {
     const J: &[&str] = &[
         "0x10", "1e3", "--", "+-", "é", "foo", ".ra", "ab$rax", "$", "$$rbx", "rbx$", "5$", "-", ".cfa.", ".undefx", "^^",
         "+1+", "1_0", " ", "\t", "\u{c}", "@@", "$.cfa", "٣", "1:", "$rsp$rbp",
+        // not ASCII whitespace: stays inside its token (non-breaking / em / ideographic space, NEL, VT)
+        "8\u{a0}8", "\u{a0}", "4\u{2003}+", "\u{3000}", "8\u{85}", "8\u{b}8", "\u{10000}", "$\u{ff5e}", "+0", "-00", "１",
     ];
     rng.pick(J).to_string()
 }
@@ -1183,6 +1199,27 @@ impl Engine for Cfi {
         for _ in 0..nstack {
             emit(gen_stack(rng));
         }
+        // the same `stack` payload to BOTH Lean models of the evaluator (and, each time, to the
+        // real walk_stack): MdModel.Cfi answers the `c06` line, MdModel.Walk the `wlk` line
+        let nx = match tier {
+            Tier::Quick => 12_000,
+            Tier::Thorough => 120_000,
+        };
+        let mut made = 0;
+        let mut tries = 0;
+        while made < nx && tries < 4 * nx {
+            tries += 1;
+            let line = gen_stack(rng);
+            let Some(mut c) = parse_case(&line) else { continue };
+            if to_walk_case(&c).is_none() {
+                continue;
+            }
+            c.xwalk = Some("c06".into());
+            emit(render(&c));
+            c.xwalk = Some("wlk".into());
+            emit(render(&c));
+            made += 1;
+        }
         for i in 0..nrand {
             if i % 40 == 1 {
                 emit(self.gen_deep_expr(rng));
@@ -1206,7 +1243,15 @@ impl Engine for Cfi {
             return res;
         }
         if c.stack.is_some() {
-            return exec_stack(&c);
+            return match c.xwalk.as_deref() {
+                Some("wlk") => exec_xwalk_wlk(&c),
+                Some(_) => {
+                    let mut r = exec_stack(&c);
+                    r.tags.push("xwalk:c06-model".into());
+                    r
+                }
+                None => exec_stack(&c),
+            };
         }
         let sym = match catch(|| SymbolFile::from_bytes(&symbol_file_text(&c))) {
             Ok(Ok(s)) => s,
@@ -1306,6 +1351,22 @@ impl Engine for Cfi {
             Err(why) => res.tags.push(format!("oracle:abstains:{why}")),
         }
         res
+    }
+
+    fn model_request(&self, case: &str) -> Option<String> {
+        // fast path: everything but the xwalk cases goes to the model verbatim
+        if !case.starts_with("cfi xwalk ") {
+            return Some(case.to_string());
+        }
+        let Some(mut c) = parse_case(case) else { return Some(case.to_string()) };
+        match c.xwalk.as_deref() {
+            Some("c06") => {
+                c.xwalk = None;
+                Some(render(&c))
+            }
+            Some("wlk") => to_walk_case(&c).map(|w| w.render()),
+            _ => Some(case.to_string()),
+        }
     }
 
     fn shrink(&self, case: &str, still_fails: &dyn Fn(&str) -> bool) -> String {
@@ -1550,17 +1611,27 @@ fn run_walk_stack(a: &Arch, c: &Case) -> Result<String, String> {
     ))
 }
 
-/// the glue around `walk_frame` (see `MdModel.Cfi.stackGlue`), applied to the documented result
-fn glue(c: &Case, st: DocState) -> String {
+/// the glue around `walk_frame` (see `MdModel.Cfi.stackGlue` and the `stack` branch of its `handle`),
+/// applied to the documented result. `st`: (cfa, ra, caller registers) where the registers were
+/// computed with the CFA and the return address stored in the stack-pointer / instruction-pointer
+/// registers first (that is where `CfiStackWalker::set_cfa` / `set_ra` put them, so a rule
+/// labelled `$rsp:` overwrites or clears the value the frame reports).
+fn glue(c: &Case, a: &Arch, st: Option<(u64, u64, Vec<(String, u64)>)>) -> String {
     let Some((_, sp, leaf, strip)) = &c.stack else { return "bad-op".into() };
     let in_stack = !c.mem.is_empty()
         && c.mem_base.checked_add(c.mem.len() as u64 - 1).is_some()
         && *sp >= c.mem_base
         && *sp - c.mem_base < c.mem.len() as u64;
-    let Some((cfa, mut ra, mut regs, _)) = st else { return "nocfi".into() };
+    let Some((cfa0, ra0, mut regs)) = st else { return "nocfi".into() };
     if !in_stack {
         return "nocfi".into();
     }
+    let sp_v = regs.iter().find(|(n, _)| n == a.sp).map(|(_, v)| *v);
+    let ip_v = regs.iter().find(|(n, _)| n == a.ip).map(|(_, v)| *v);
+    regs.retain(|(n, _)| n != a.sp && n != a.ip);
+    // the unwinders read both raw: a cleared register keeps its last value
+    let cfa = sp_v.unwrap_or(cfa0);
+    let mut ra = ip_v.unwrap_or(ra0);
     if let Some(m) = strip {
         ra &= m;
         for (n, v) in regs.iter_mut() {
@@ -1572,7 +1643,23 @@ fn glue(c: &Case, st: DocState) -> String {
     if ra < 4096 || (cfa <= *sp && !(*leaf && cfa == *sp)) {
         return "nocfi".into();
     }
-    show_state(Some(cfa), Some(ra), &regs)
+    show_state(sp_v.map(|_| cfa), ip_v.map(|_| ra), &regs)
+}
+
+/// the documented result of a `stack` case: `doc_expect` once for the CFA and the return address,
+/// then again with the two stored as caller registers
+fn doc_expect_stack(c: &Case, a: &Arch) -> Result<(Option<(u64, u64, Vec<(String, u64)>)>, Option<(u64, u64, Vec<(String, u64)>)>), &'static str> {
+    let pristine = Mock::new(c);
+    let Some((cfa, ra, _, _)) = doc_expect(c, &pristine)? else { return Ok((None, None)) };
+    let mut c2 = c.clone();
+    c2.fwd.retain(|(n, _)| n != a.sp && n != a.ip);
+    c2.fwd.push((a.sp.to_string(), cfa));
+    c2.fwd.push((a.ip.to_string(), ra));
+    let p2 = Mock::new(&c2);
+    match doc_expect(&c2, &p2)? {
+        None => Ok((None, None)),
+        Some((cfa, ra, regs, lenient)) => Ok((Some((cfa, ra, regs)), Some((cfa, ra, lenient)))),
+    }
 }
 
 fn exec_stack(c: &Case) -> ImplResult {
@@ -1611,12 +1698,12 @@ fn exec_stack(c: &Case) -> ImplResult {
     }
     res.tags.push(if res.out == "nocfi" { "stack-result:nocfi".into() } else { "stack-result:cfi-frame".into() });
     res.nontrivial = res.out != "nocfi";
-    let pristine = Mock::new(c);
-    // a rule labelled with the stack or instruction pointer itself is outside what the glue model covers
-    match doc_expect(c, &pristine) {
-        Ok(st) => {
-            let lenient = glue(c, st.clone().map(|(a, b, _, l)| (a, b, l.clone(), l)));
-            let want = glue(c, st);
+    // the CFA and the return address live in the stack-pointer / instruction-pointer registers:
+    // rules labelled with those registers act on them (`doc_expect_stack`)
+    match doc_expect_stack(c, a) {
+        Ok((st, len)) => {
+            let lenient = glue(c, a, len);
+            let want = glue(c, a, st);
             if want != res.out {
                 let class = if res.out == lenient {
                     "reg-neither-set-nor-cleared"
@@ -1703,7 +1790,9 @@ fn gen_stack(rng: &mut Rng) -> String {
     pool.extend(a.alias.iter().map(|(x, _)| x.to_string()));
     pool.push("nosuch".into());
     let gen_other = |c: &Case, rng: &mut Rng| -> String {
-        let n = rng.pick(&pool[..]).clone();
+        // now and then a rule for the stack pointer / instruction pointer register itself: it acts
+        // on the CFA / return address the frame reports (they are stored in those registers)
+        let n = if rng.chance(1, 16) { rng.pick(&[a.sp, a.ip]).to_string() } else { rng.pick(&pool[..]).clone() };
         let mut e = vec![];
         match rng.below(8) {
             0 => e.push(".undef".to_string()),
@@ -1749,4 +1838,109 @@ fn gen_stack(rng: &mut Rng) -> String {
         c.adds.push((addr, parts.join(" ").into_bytes()));
     }
     render(&c)
+}
+
+
+// ------------------------------------------------------------------------------------ xwalk
+// The framework has two Lean models of the one STACK CFI evaluator: `MdModel.Cfi` (C06's subject)
+// and the one inside the stack-walk model `MdModel.Walk` (C03/C04/C05). `MdProofs.C06Walk` proves
+// them equal; the `xwalk` cases exercise that bridge at run time, three ways: one `stack` payload
+// is run through the real `walk_stack` and sent to `MdModel.Cfi` (line `cfi xwalk c06 …`, request
+// `cfi stack …`) and to `MdModel.Walk` (line `cfi xwalk wlk …`, request `walk …`, the whole call
+// stack compared). The `wlk` execution also re-derives the `stack` answer from the very call stack
+// it shows, so a slip of the translation between the two case formats cannot hide.
+
+/// rule text the `walk` protocol can carry verbatim (`_` stands for a space there; `;` `|` `,`
+/// separate records; fields are split at single spaces)
+fn transportable(r: &[u8]) -> bool {
+    let Ok(t) = std::str::from_utf8(r) else { return false };
+    !t.is_empty()
+        && !t.starts_with(' ')
+        && !t.ends_with(' ')
+        && !t.contains("  ")
+        && t.chars().all(|ch| ch == ' ' || (!ch.is_ascii_control() && !matches!(ch, '_' | ';' | '|' | ',')))
+}
+
+/// the `walk`-engine case with the same context, stack memory, module and STACK CFI records
+fn to_walk_case(c: &Case) -> Option<super::walk::Case> {
+    use super::walk;
+    let (arch, ..) = c.stack.as_ref()?;
+    if !transportable(&c.init) || !c.adds.iter().all(|(_, r)| transportable(r)) {
+        return None;
+    }
+    if c.init_size > u32::MAX as u64 {
+        return None;
+    }
+    let mut recs = vec![walk::Rec::C {
+        addr: c.init_addr,
+        size: c.init_size as u32,
+        rules: String::from_utf8(c.init.clone()).ok()?,
+    }];
+    for (a, r) in &c.adds {
+        recs.push(walk::Rec::A { addr: *a, rules: String::from_utf8(r.clone()).ok()? });
+    }
+    Some(walk::Case {
+        engine: "walk".into(),
+        arch: arch.clone(),
+        os: "linux".into(),
+        regs: c.callee.clone(),
+        valid: None,
+        stack: Some((c.mem_base, c.mem.clone())),
+        mods: vec![(c.base, MODULE_SIZE, "mod".into())],
+        syms: vec![("mod".into(), recs)],
+        symraw: vec![],
+        extra: vec![],
+    })
+}
+
+/// the `stack` answer read off a call stack: frame 1 if it was found by CFI
+fn frame1_summary(a: &Arch, stack: &minidump_unwind::CallStack) -> String {
+    use minidump_unwind::FrameTrust;
+    let Some(f1) = stack.frames.get(1) else { return "nocfi".into() };
+    if f1.trust != FrameTrust::CallFrameInfo {
+        return "nocfi".into();
+    }
+    let regs: Vec<(String, u64)> = f1
+        .context
+        .valid_registers()
+        .filter(|(n, _)| *n != a.sp && *n != a.ip)
+        .map(|(n, v)| (n.to_string(), v))
+        .collect();
+    show_state(f1.context.get_register(a.sp), f1.context.get_register(a.ip), &regs)
+}
+
+fn exec_xwalk_wlk(c: &Case) -> ImplResult {
+    use super::walk;
+    // validation, tags and the documented-semantics oracle of the `stack` reading of the payload
+    let st = exec_stack(c);
+    if st.out == "bad-op" || st.out == "PANIC" {
+        return st;
+    }
+    let mut res = ImplResult { tags: st.tags.clone(), oracle: st.oracle.clone(), nontrivial: st.nontrivial, ..Default::default() };
+    res.tags.push("xwalk:walk-model".into());
+    let Some(w) = to_walk_case(c) else {
+        res.out = "bad-op".into();
+        return res;
+    };
+    let Some((arch, ..)) = &c.stack else { unreachable!() };
+    let Some(a) = ARCHS.iter().find(|a| a.name == arch) else { unreachable!() };
+    match walk::run_walk(&w) {
+        Err(msg) => {
+            res.out = "PANIC".into();
+            res.oracle.push(("walk-stack-panics".into(), msg));
+        }
+        Ok(stack) => {
+            res.out = walk::show_stack(&w, &stack);
+            res.tags.push(format!("xwalk-frames:{}", stack.frames.len().min(4)));
+            // both readings of the payload ran the same real code: they must tell the same story
+            let again = frame1_summary(a, &stack);
+            if again != st.out {
+                res.oracle.push((
+                    "xwalk-readings-differ".into(),
+                    format!("as `cfi stack`: {}  as `walk`: {}", st.out, again),
+                ));
+            }
+        }
+    }
+    res
 }
